@@ -32,7 +32,7 @@ def gen_cases(tier, seed):
     cases = [{"kind": "pipeline", "id": "pipeline"}, {"kind": "table", "id": "table"}]
     n = 14 if tier == "quick" else 60
     for k in range(n):
-        cases.append({"kind": "helper", "gen_seed": seed * 3571 + k, "examples": 400 if tier == "quick" else 2000, "id": "helper#%d" % k})
+        cases.append({"kind": "helper", "gen_seed": seed * 3571 + k, "examples": 400 if tier == "quick" else 20000, "id": "helper#%d" % k})
     return cases
 
 
